@@ -21,7 +21,7 @@ for pid in sorted(CHECKS):
         "quick_cmd": f"./run_check.sh {pid} quick",
         "thorough_cmd": f"./run_check.sh {pid} thorough",
         "evidence_file": f"/verif/evidence/{pid}.json",
-        "replay_cmd_template": "./bin/spdxmc replay {path}",
+        "replay_cmd_template": "./run_check.sh replay {path}",
         "engine": c.get("engine", "spdxmc"),
         "level_claimed": {"category": "model_checking", "text": c["text"], "design_ref": c["design_ref"]},
         "level_note": c["note"],
